@@ -447,6 +447,9 @@ func TestVerifC01(t *testing.T) {
 			}
 		})
 	}
+	// Part D: slow start enabled, histories that end with slow start finished (or switched off);
+	// see c01_slowstart_verif_test.go.
+	c01slowStart(t, r, &idx)
 	r.Set("bounds", fmt.Sprintf("fresh: N<=%d w<=%d; zero-weight: N<=%d; change histories: N<=%d w<=%d, change after every k<=W picks; no-op reload (identical / reversed / rotated list, and before every pick): N<=%d w<=%d plus zero-weight N<=%d, after every k<=W picks", maxN, maxW, r.Pick(3, 4), maxNB, maxWB, maxN, maxW, r.Pick(3, 4)))
 }
 
